@@ -61,7 +61,9 @@ PROPS = {
     "C01": {
         "module": "Cuke.Props.C01",
         "namespace": "Cuke.C01",
-        "families": [("pipe.verdict", 3000, 150000)],
+        "families": [("pipe.verdict", 3000, 150000), ("sched.run", 600, 40000)],
+        "segments": {"sched.run": [14]},
+        "segment_names": ['c01'],
         "modelled_not_verified": [
             "process exit status / the panic! in filter_run_and_exit (the Stats getters it reads are compared)",
             "Libtest's own verdict is covered with C14 once the reporters are modelled",
